@@ -829,6 +829,102 @@ package core
 //@   loop visit s.externalAgents: invariant res == card(visited)
 //@   loop visit s.internalAgents: invariant res == len(s.externalAgents.byName) + card(visited)
 
+// Lists built by Visit callbacks: every element is a registered agent (that passes the filter), every registered agent
+// (that passes the filter) is listed; without a filter there is exactly one element per registered name. The loop
+// invariants name their witnesses through two ghost arrays (position -> key, key -> position) updated per iteration.
+//@ func (*registrationServiceImpl).GetExternalAgents$1
+//@   modifies agents
+//@   ensures [appended] len(agents) == old(len(agents)) + 1 && agents[old(len(agents))] == a && (forall i int :: 0 <= i && i < old(len(agents)) ==> agents[i] == old(agents[i]))
+//@ func (*registrationServiceImpl).GetExternalAgents
+//@   modifies nothing
+//@   ensures [one-per-registered] len(r0) == len(s.externalAgents.byName)
+//@   loop visit s.externalAgents: invariant len(agents) == card(visited)
+//@   ensures [only-registered] forall i int :: 0 <= i && i < len(r0) ==> (exists k string :: has(s.externalAgents.byName, k) && s.externalAgents.byName[k] == r0[i])
+//@   ensures [every-registered] forall k string :: has(s.externalAgents.byName, k) ==> (exists i int :: 0 <= i && i < len(r0) && r0[i] == s.externalAgents.byName[k])
+//@   loop visit s.externalAgents: ghost keyAt int -> string
+//@   loop visit s.externalAgents: ghost posOf string -> int
+//@   loop visit s.externalAgents: step len(agents) == prev(len(agents)) + 1 ==> keyAt[prev(len(agents))] := key
+//@   loop visit s.externalAgents: step len(agents) == prev(len(agents)) + 1 ==> posOf[key] := prev(len(agents))
+//@   loop visit s.externalAgents: invariant forall i int :: 0 <= i && i < len(agents) ==> visited[keyAt[i]] && s.externalAgents.byName[keyAt[i]] == agents[i]
+//@   loop visit s.externalAgents: invariant forall k string :: visited[k] ==> 0 <= posOf[k] && posOf[k] < len(agents) && agents[posOf[k]] == s.externalAgents.byName[k]
+//@ func (*registrationServiceImpl).GetInternalAgents$1
+//@   modifies agents
+//@   ensures [appended] len(agents) == old(len(agents)) + 1 && agents[old(len(agents))] == a && (forall i int :: 0 <= i && i < old(len(agents)) ==> agents[i] == old(agents[i]))
+//@ func (*registrationServiceImpl).GetInternalAgents
+//@   modifies nothing
+//@   ensures [one-per-registered] len(r0) == len(s.internalAgents.byName)
+//@   loop visit s.internalAgents: invariant len(agents) == card(visited)
+//@   ensures [only-registered] forall i int :: 0 <= i && i < len(r0) ==> (exists k string :: has(s.internalAgents.byName, k) && s.internalAgents.byName[k] == r0[i])
+//@   ensures [every-registered] forall k string :: has(s.internalAgents.byName, k) ==> (exists i int :: 0 <= i && i < len(r0) && r0[i] == s.internalAgents.byName[k])
+//@   loop visit s.internalAgents: ghost keyAt int -> string
+//@   loop visit s.internalAgents: ghost posOf string -> int
+//@   loop visit s.internalAgents: step len(agents) == prev(len(agents)) + 1 ==> keyAt[prev(len(agents))] := key
+//@   loop visit s.internalAgents: step len(agents) == prev(len(agents)) + 1 ==> posOf[key] := prev(len(agents))
+//@   loop visit s.internalAgents: invariant forall i int :: 0 <= i && i < len(agents) ==> visited[keyAt[i]] && s.internalAgents.byName[keyAt[i]] == agents[i]
+//@   loop visit s.internalAgents: invariant forall k string :: visited[k] ==> 0 <= posOf[k] && posOf[k] < len(agents) && agents[posOf[k]] == s.internalAgents.byName[k]
+//@ func (*ExternalAgentsMap).AsArray$1
+//@   modifies agents
+//@   ensures [appended] len(agents) == old(len(agents)) + 1 && agents[old(len(agents))] == a && (forall i int :: 0 <= i && i < old(len(agents)) ==> agents[i] == old(agents[i]))
+//@ func (*ExternalAgentsMap).AsArray
+//@   modifies nothing
+//@   ensures [one-per-registered] len(r0) == len(m.byName)
+//@   loop visit m: invariant len(agents) == card(visited)
+//@   ensures [only-registered] forall i int :: 0 <= i && i < len(r0) ==> (exists k string :: has(m.byName, k) && m.byName[k] == r0[i])
+//@   ensures [every-registered] forall k string :: has(m.byName, k) ==> (exists i int :: 0 <= i && i < len(r0) && r0[i] == m.byName[k])
+//@   loop visit m: ghost keyAt int -> string
+//@   loop visit m: ghost posOf string -> int
+//@   loop visit m: step len(agents) == prev(len(agents)) + 1 ==> keyAt[prev(len(agents))] := key
+//@   loop visit m: step len(agents) == prev(len(agents)) + 1 ==> posOf[key] := prev(len(agents))
+//@   loop visit m: invariant forall i int :: 0 <= i && i < len(agents) ==> visited[keyAt[i]] && m.byName[keyAt[i]] == agents[i]
+//@   loop visit m: invariant forall k string :: visited[k] ==> 0 <= posOf[k] && posOf[k] < len(agents) && agents[posOf[k]] == m.byName[k]
+//@ func (*InternalAgentsMap).AsArray$1
+//@   modifies agents
+//@   ensures [appended] len(agents) == old(len(agents)) + 1 && agents[old(len(agents))] == a && (forall i int :: 0 <= i && i < old(len(agents)) ==> agents[i] == old(agents[i]))
+//@ func (*InternalAgentsMap).AsArray
+//@   modifies nothing
+//@   ensures [one-per-registered] len(r0) == len(m.byName)
+//@   loop visit m: invariant len(agents) == card(visited)
+//@   ensures [only-registered] forall i int :: 0 <= i && i < len(r0) ==> (exists k string :: has(m.byName, k) && m.byName[k] == r0[i])
+//@   ensures [every-registered] forall k string :: has(m.byName, k) ==> (exists i int :: 0 <= i && i < len(r0) && r0[i] == m.byName[k])
+//@   loop visit m: ghost keyAt int -> string
+//@   loop visit m: ghost posOf string -> int
+//@   loop visit m: step len(agents) == prev(len(agents)) + 1 ==> keyAt[prev(len(agents))] := key
+//@   loop visit m: step len(agents) == prev(len(agents)) + 1 ==> posOf[key] := prev(len(agents))
+//@   loop visit m: invariant forall i int :: 0 <= i && i < len(agents) ==> visited[keyAt[i]] && m.byName[keyAt[i]] == agents[i]
+//@   loop visit m: invariant forall k string :: visited[k] ==> 0 <= posOf[k] && posOf[k] < len(agents) && agents[posOf[k]] == m.byName[k]
+//@ func (*registrationServiceImpl).GetSubscribedExternalAgents$1
+//@   modifies agents
+//@   ensures [appended-when-subscribed] has(a.events, eventType) ==> len(agents) == old(len(agents)) + 1 && agents[old(len(agents))] == a && (forall i int :: 0 <= i && i < old(len(agents)) ==> agents[i] == old(agents[i]))
+//@   ensures [skipped-otherwise] !has(a.events, eventType) ==> agents == old(agents)
+//@ func (*registrationServiceImpl).GetSubscribedExternalAgents
+//@   modifies nothing
+//@   ensures [at-most-one-per-registered] len(r0) <= len(s.externalAgents.byName)
+//@   loop visit s.externalAgents: invariant len(agents) <= card(visited)
+//@   ensures [only-registered] forall i int :: 0 <= i && i < len(r0) ==> (exists k string :: has(s.externalAgents.byName, k) && s.externalAgents.byName[k] == r0[i]) && has(r0[i].events, eventType)
+//@   ensures [every-registered] forall k string :: has(s.externalAgents.byName, k) && has(s.externalAgents.byName[k].events, eventType) ==> (exists i int :: 0 <= i && i < len(r0) && r0[i] == s.externalAgents.byName[k])
+//@   loop visit s.externalAgents: ghost keyAt int -> string
+//@   loop visit s.externalAgents: ghost posOf string -> int
+//@   loop visit s.externalAgents: step len(agents) == prev(len(agents)) + 1 ==> keyAt[prev(len(agents))] := key
+//@   loop visit s.externalAgents: step len(agents) == prev(len(agents)) + 1 ==> posOf[key] := prev(len(agents))
+//@   loop visit s.externalAgents: invariant forall i int :: 0 <= i && i < len(agents) ==> visited[keyAt[i]] && s.externalAgents.byName[keyAt[i]] == agents[i] && has(agents[i].events, eventType)
+//@   loop visit s.externalAgents: invariant forall k string :: visited[k] && has(s.externalAgents.byName[k].events, eventType) ==> 0 <= posOf[k] && posOf[k] < len(agents) && agents[posOf[k]] == s.externalAgents.byName[k]
+//@ func (*registrationServiceImpl).GetSubscribedInternalAgents$1
+//@   modifies agents
+//@   ensures [appended-when-subscribed] has(a.events, eventType) ==> len(agents) == old(len(agents)) + 1 && agents[old(len(agents))] == a && (forall i int :: 0 <= i && i < old(len(agents)) ==> agents[i] == old(agents[i]))
+//@   ensures [skipped-otherwise] !has(a.events, eventType) ==> agents == old(agents)
+//@ func (*registrationServiceImpl).GetSubscribedInternalAgents
+//@   modifies nothing
+//@   ensures [at-most-one-per-registered] len(r0) <= len(s.internalAgents.byName)
+//@   loop visit s.internalAgents: invariant len(agents) <= card(visited)
+//@   ensures [only-registered] forall i int :: 0 <= i && i < len(r0) ==> (exists k string :: has(s.internalAgents.byName, k) && s.internalAgents.byName[k] == r0[i]) && has(r0[i].events, eventType)
+//@   ensures [every-registered] forall k string :: has(s.internalAgents.byName, k) && has(s.internalAgents.byName[k].events, eventType) ==> (exists i int :: 0 <= i && i < len(r0) && r0[i] == s.internalAgents.byName[k])
+//@   loop visit s.internalAgents: ghost keyAt int -> string
+//@   loop visit s.internalAgents: ghost posOf string -> int
+//@   loop visit s.internalAgents: step len(agents) == prev(len(agents)) + 1 ==> keyAt[prev(len(agents))] := key
+//@   loop visit s.internalAgents: step len(agents) == prev(len(agents)) + 1 ==> posOf[key] := prev(len(agents))
+//@   loop visit s.internalAgents: invariant forall i int :: 0 <= i && i < len(agents) ==> visited[keyAt[i]] && s.internalAgents.byName[keyAt[i]] == agents[i] && has(agents[i].events, eventType)
+//@   loop visit s.internalAgents: invariant forall k string :: visited[k] && has(s.internalAgents.byName[k].events, eventType) ==> 0 <= posOf[k] && posOf[k] < len(agents) && agents[posOf[k]] == s.internalAgents.byName[k]
+
 //@ func (*registrationServiceImpl).CreateExternalAgent
 //@   modifies mapof(s.externalAgents.byName), mapof(s.externalAgents.byID)
 //@   ensures [closed] old(s.state) != registrationServiceOn ==> r0 == nil && r1 == ErrRegistrationServiceOff && extMapUnchanged(s.externalAgents)
